@@ -174,8 +174,12 @@ func FuncKey(fn *ssa.Function) string {
 
 // ShortKey strips the module prefix for display.
 func ShortKey(k string) string {
-	k = strings.TrimPrefix(k, orbPath+"/")
-	k = strings.TrimPrefix(k, orbPath+".")
+	if strings.HasPrefix(k, orbPath+"/") {
+		return strings.TrimPrefix(k, orbPath+"/")
+	}
+	if strings.HasPrefix(k, orbPath+".") {
+		return "orb." + strings.TrimPrefix(k, orbPath+".")
+	}
 	return k
 }
 
